@@ -900,6 +900,8 @@ class QueryBuilder(Selectable, Term):  # type:ignore[misc]
             selectable.alias = "sq%d" % sub_query_count
             self._subquery_count = sub_query_count + 1
 
+        self._recheck_foreign_table()
+
     @builder
     def replace_table(  # type:ignore[return]
         self, current_table: Table | None, new_table: Table | None
@@ -1001,6 +1003,7 @@ class QueryBuilder(Selectable, Term):  # type:ignore[misc]
             raise AttributeError("'Query' object has no attribute '%s'" % "update")
 
         self._update_table = table if isinstance(table, Table) else Table(table)
+        self._recheck_foreign_table()
 
     @builder
     def columns(self, *terms: Any) -> "Self":  # type:ignore[return]
@@ -1336,6 +1339,7 @@ class QueryBuilder(Selectable, Term):  # type:ignore[misc]
             join.item.alias = join.item._table_name + "2"
 
         self._joins.append(join)
+        self._recheck_foreign_table()
 
     def is_joined(self, table: Table) -> bool:
         return any(table == join.item for join in self._joins)
@@ -1360,6 +1364,18 @@ class QueryBuilder(Selectable, Term):  # type:ignore[misc]
             ):
                 return False
         return True
+
+    def _recheck_foreign_table(self) -> None:
+        """
+        A WHERE/PREWHERE criterion that named a table before that table was added as a source is
+        not a reference to a foreign table any more once the source has been added.
+        """
+        if self._foreign_table:
+            self._foreign_table = not all(
+                self._validate_table(criterion)
+                for criterion in (self._wheres, self._prewheres)
+                if criterion is not None
+            )
 
     def _tag_subquery(self, subquery: Self) -> None:
         subquery.alias = "sq%d" % self._subquery_count
